@@ -118,6 +118,14 @@ def run(tier: str) -> int:
                                     inputs=profiles.inputs_exhaustive(4, 5, cap_q=160, cap_t=700, alpha=[97, 98, 99, 10]), per_tu=1,
                                     configs=profiles.amr_configs(ams=((1, 'r'),), eols=('lf_crlf', 'cr'), lazies=(0, 1)),
                                     ctx_names=['top', 'seq-tail', 'seq-head']),
+        # every rule kind over end-of-line probes (eol, eolf, lone LF / CR, any), under all five policies: the first grammar of each kind
+        # has `eol` in every slot (until< eol >, star< eol >, list< eol, eol >, …)
+        profiles.systematic_profile('syseol', lambda k, f: k in ('seq2', 'sor2', 'star1', 'plus1', 'opt1', 'at1', 'not_at1', 'until1', 'until2', 'until3', 'list', 'list_tail', 'pad', 'pad_opt', 'minus',
+                                                                    'rematch2', 'if_then_else', 'rep2', 'rep_opt2', 'rep_min_max1_2', 'partial2', 'star_partial2', 'strict2', 'star_strict2'), False, 30, 150, ORACLES,
+                                    actions_mode='void', eol_probes=True,
+                                    inputs=profiles.inputs_exhaustive(4, 5, cap_q=80, cap_t=500, alpha=[97, 10, 13], longer=2), per_tu=2,
+                                    configs=profiles.amr_configs(ams=((1, 'r'),), eols=('lf', 'cr', 'crlf', 'lf_crlf', 'cr_crlf'), lazies=(0, 1)),
+                                    ctx_names=['top', 'seq-tail']),
         # every leaf rule: each one's bump_in_this_line / bump_to_next_line shortcut, under three eol policies, eager and lazy
         profiles.atoms_profile('atoms', ORACLES, cap_q=70, cap_t=700, per_tu=3, exclude=('bol',),   # bol needs column(): no lazy inputs
                                configs=profiles.amr_configs(ams=((1, 'r'),), eols=('lf_crlf', 'cr', 'crlf'), lazies=(0, 1))),
